@@ -291,7 +291,8 @@ class StateMachine(object):
 		if 'Content-Encoding' in self.message.headers:
 			try:
 				self.message.body.content_encoding = self.message.headers.element('Content-Encoding')
-				self.message.body.content_encoding.codec  # pylint: disable=W0104
+				if self.message.body.content_encoding.codec is NotImplementedError:
+					raise NOT_IMPLEMENTED(_(u'Unsupported Content-Encoding: %r') % (self.message.body.content_encoding.value,))
 			except Invalid as exc:
 				raise NOT_IMPLEMENTED(Unicode(exc))
 
